@@ -36,6 +36,9 @@ def label_item(seed, i):
     T = int(rng.integers(1, 60))
     K = int(rng.integers(1, 7))
     cls = ["gauss", "smallint", "mixedmag", "ties"][i % 4]
+    special = None
+    if i % 10 == 9 and T >= 2 and K >= 2:
+        special = ["nan_cell", "nan_col", "inf_cell", "neginf_cell", "nan_row"][(i // 10) % 5]
     if cls == "gauss":
         C = rng.normal(size=(T, K)) * 10
     elif cls == "smallint":
@@ -44,6 +47,16 @@ def label_item(seed, i):
         C = rng.normal(size=(T, K)) * 10 ** rng.uniform(-5, 8, size=(T, K))
     else:
         C = np.round(rng.normal(size=(T, K)))
+    if special == "nan_cell":
+        C[int(rng.integers(0, T)), int(rng.integers(1, K))] = np.nan
+    elif special == "nan_col":
+        C[:, int(rng.integers(1, K))] = np.nan
+    elif special == "inf_cell":
+        C[int(rng.integers(0, T)), int(rng.integers(0, K))] = np.inf
+    elif special == "neginf_cell":
+        C[int(rng.integers(0, T)), int(rng.integers(0, K))] = -np.inf
+    elif special == "nan_row":
+        C[int(rng.integers(0, T)), :] = np.nan
     lay = ["C", "C", "F", "readonly"][(i // 4) % 4]
     if lay == "F":
         C = np.asfortranarray(C)
@@ -170,25 +183,39 @@ def run_threads(spec, res):
     import numba
     from fast_ticc import likelihood as lk
     rng = np.random.default_rng([spec["seed"], 154])
-    nw, W, K, T = 6, 2, 6, 4000
+    nw, W, K = 6, 2, 6
     mus = rng.normal(size=(K, nw))
     ths = np.array([(lambda A: A @ A.T / nw + 0.2 * np.eye(nw))(rng.normal(size=(nw, nw))) for _ in range(K)])
     lds = np.array([np.linalg.slogdet(t)[1] for t in ths])
-    X = rng.normal(size=(T, nw)) * 3
-    ref = None
     res.counters["numba_threads_available"] = int(numba.config.NUMBA_NUM_THREADS)
-    counts = [n for n in (1, 2, 4, 8, 16) if n <= numba.config.NUMBA_NUM_THREADS]
+    counts = [n for n in (1, 2, 3, 4, 5, 7, 8, 11, 16) if n <= numba.config.NUMBA_NUM_THREADS]
     seen = []
-    for n in counts:
-        numba.set_num_threads(n)
-        tab = lk.all_points_all_clusters_log_likelihood_fast(W, K, mus, ths, lds, X)
-        res.evaluations += 1
-        if ref is None:
-            ref = tab.copy()
-        elif not np.array_equal(tab.view(np.uint64), ref.view(np.uint64)):
-            res.violation("likelihood table differs bit-wise between 1 and %d threads (%d entries)" % (n, int((tab != ref).sum())), dict(what="threads", n=n))
-        seen.append(n)
-        res.nontriv("threads%d" % n)
+    heights = [1, 2, 5, 9, 17, 18, 37, 101, 1000, 4000, 4001]
+    for T in heights:
+        X = rng.normal(size=(T, nw)) * 3
+        refo = gauss.gauss_table(X, list(mus), list(ths))
+        bnd = gauss.table_bound(X, list(mus), list(ths))
+        ref = None
+        for n in counts:
+            numba.set_num_threads(n)
+            tab = lk.all_points_all_clusters_log_likelihood_fast(W, K, mus, ths, lds, X)
+            res.evaluations += 1
+            if ref is None:
+                ref = tab.copy()
+            elif not np.array_equal(tab.view(np.uint64), ref.view(np.uint64)):
+                res.violation("likelihood table (%d points) differs bit-wise between 1 and %d threads (%d entries)" % (T, n, int((tab != ref).sum())),
+                              dict(what="threads", n=n, T=T))
+            if np.any(np.abs(tab - refo) > bnd):
+                res.violation("likelihood table (%d points, %d threads) deviates from the Gaussian log-density beyond the rounding bound "
+                              "(%d entries, e.g. row %d)" % (T, n, int((np.abs(tab - refo) > bnd).sum()), int(np.argmax(np.max(np.abs(tab - refo), axis=1)))),
+                              dict(what="threads", n=n, T=T))
+            if n not in seen:
+                seen.append(n)
+            res.nontriv("threads%d-T%d" % (n, T))
+    T = 4000
+    X = rng.normal(size=(T, nw)) * 3
+    numba.set_num_threads(1)
+    ref = lk.all_points_all_clusters_log_likelihood_fast(W, K, mus, ths, lds, X).copy()
     numba.set_num_threads(max(counts))
     for rep in range(spec["repeats"]):
         tab = lk.all_points_all_clusters_log_likelihood_fast(W, K, mus, ths, lds, X)
@@ -203,7 +230,7 @@ def run_threads(spec, res):
     res.counters["thread_counts_compared"] = seen
     if len(seen) < 4:
         res.inconclusive.append("only thread counts %s available" % seen)
-    res.sample(dict(what="threads", table_shape=[T, K], thread_counts=seen, repeats=spec["repeats"]))
+    res.sample(dict(what="threads", table_heights=heights, thread_counts=seen, repeats=spec["repeats"]))
 
 
 def replay(case, res):
@@ -240,7 +267,7 @@ def finalize(merged, tier):
             if it.startswith("lab"):
                 if list(v["labels"]) != list(ref["labels"]):
                     out["violations"].append({"msg": "%s: labels differ between %s and %s" % (it, m, ref_mode), "case": {"item": it}})
-                elif np.float64(v["cost"]).tobytes() != np.float64(ref["cost"]).tobytes():
+                elif np.float64(v["cost"]).tobytes() != np.float64(ref["cost"]).tobytes() and not (np.isnan(v["cost"]) and np.isnan(ref["cost"])):
                     out["violations"].append({"msg": "%s: cost %r (%s) vs %r (%s) not bit-identical" % (it, float(v["cost"]), m, float(ref["cost"]), ref_mode),
                                               "case": {"item": it}})
             elif it.startswith("lik"):
